@@ -138,6 +138,8 @@ structure OpView where
   /-- pending 32-byte directory-entry records of live handles according to the MODEL session (absolute offset, bytes);
       `none` when the model is no longer following the implementation in this history -/
   overlay : Option (List (Nat × List Nat))
+  /-- the upper-casing function of the executing build (`char::to_uppercase` table when `unicode=1`, ASCII otherwise) -/
+  upper : Char → List Char := fun c => [c]
 
 /-- property oracles evaluated on the implementation's own behaviour, with per-history state `σ` -/
 structure OracleDef (σ : Type) where
@@ -314,7 +316,8 @@ def finishOp {σ : Type} (ctx : Ctx σ) (st : Stats) (h : Hist σ) (io : ImplOp)
   -- property oracles on the implementation's own behaviour
   let view : OpView := { prop := cfg.prop, header := h.header, scenario := h.scenario, cfgArgs := h.cfgArgs, io := io,
                          before := implBefore, after := implAfter,
-                         overlay := if h.tracking then some (overlayOf h.sess) else none }
+                         overlay := if h.tracking then some (overlayOf h.sess) else none,
+                         upper := h.sess.env.upper }
   let (ost, msgs) := ctx.oracle.step h.ost view
   h := { h with ost := ost }
   for msg in msgs do
